@@ -45,7 +45,7 @@ func init() {
 	register("C10", &propDef{
 		Title: "Bundle package directories are sanitised",
 		Rules: []func(*Checker){ruleC10Walked, ruleC10Exits, ruleC10Links, aliasRuleFiltered(ruleC13Names, "C13.names", "C10.hash", 1, func(o Oblig) bool { return strings.Contains(o.Key, "directory name is a content hash") }), ruleC10Tmp, ruleC10Inside, ruleC03PruneAs("C10.ignored"), ruleC03BundleAs("C10.removed"), ruleBuilderAbsDir("C10.absdir"), ruleBundleWalkChain("C10.chain"),
-			aliasRule(ruleC03Parse, "C03.parse", "C10.parse", 3), aliasRule(ruleC03LastWins, "C03.lastwins", "C10.lastwins", 1), aliasRule(ruleC03Glob, "C03.glob", "C10.glob", 3), aliasRule(ruleC03Meta, "C03.meta", "C10.meta", 3), aliasRule(ruleC03MatchErr, "C03.matcherr", "C10.matcherr", 1), ruleMatchByRegexpOnly("C10.byregexp"),
+			aliasRule(ruleC03Parse, "C03.parse", "C10.parse", 3), aliasRule(ruleC03LastWins, "C03.lastwins", "C10.lastwins", 1), aliasRule(ruleC03Glob, "C03.glob", "C10.glob", 3), aliasRule(ruleC03Meta, "C03.meta", "C10.meta", 3), ruleLoaderReturnsRules("C10.loaderrules"), aliasRule(ruleC03MatchErr, "C03.matcherr", "C10.matcherr", 1), ruleMatchByRegexpOnly("C10.byregexp"),
 			// the package's own rule file is found the way Pack finds it: a link to a regular file inside the package is a rule file
 			ruleDefaultRulesOrder("C10.defaults"),
 			aliasRuleFiltered(ruleC03RuleFile, "C03.rulefile", "C10.rulefile", 1, func(o Oblig) bool { return strings.Contains(o.Key, "LoadPackageIgnoreRules") })},
@@ -56,7 +56,7 @@ func init() {
 	})
 	register("C17", &propDef{
 		Title: "Registry sources resolve to the newest allowed version",
-		Rules: []func(*Checker){ruleC17Dep, ruleC17None, ruleC17Final, ruleCtxNonNil("C17.ctx"), ruleDeprecationKeptWhole("C17.notekept"), ruleSelectionBeforeAnswer("C17.selected"), ruleLoopVarAddrKept("C17.loopvar", "/sourcebundle"), aliasRuleFiltered(ruleC08NoDrop, "C08.nodrop", "C17.nodrop", 1, func(o Oblig) bool { return strings.Contains(o.Key, "pendingRegistry") }), ruleEveryOfferedVersionListed("C17.offered"), ruleRegistryRefusals("C17.refusals"), ruleDiagsReachResult("C17.diagresult")},
+		Rules: []func(*Checker){ruleC17Dep, ruleC17None, ruleC17Final, ruleCtxNonNil("C17.ctx"), ruleDeprecationKeptWhole("C17.notekept"), ruleSelectionBeforeAnswer("C17.selected"), ruleLoopVarAddrKept("C17.loopvar", "/sourcebundle"), aliasRuleFiltered(ruleC08NoDrop, "C08.nodrop", "C17.nodrop", 1, func(o Oblig) bool { return strings.Contains(o.Key, "pendingRegistry") }), ruleEveryOfferedVersionListed("C17.offered"), ruleRegistryRefusals("C17.refusals"), ruleDiagsReachResult("C17.diagresult"), ruleDecodeIntoFresh("C17.freshdecode", "/sourcebundle")},
 		NotDecided: []string{
 			"which version is newest (ordering inside go-versions, trusted library)",
 			"'first listed' vs 'newest' when both depend on the same inputs is only caught through the library-callee identity",
